@@ -85,10 +85,11 @@ def sym_name(r):
     return d[1] if d is not None and d[0] == "s" else None
 
 
-def rewrite(r, pre=None, post=None):
+def rewrite(r, pre=None, post=None, memo=None):
     """rebuild a formula bottom-up.  pre(desc) -> Rat | None  is asked before the arguments of an atom are rebuilt (a result short-cuts);
-    post(name, args) -> Rat | None  after.  Symbols go through pre only."""
-    memo = {}
+    post(name, args) -> Rat | None  after.  Symbols go through pre only.  `memo` (atom -> result) may be kept between calls by a caller
+    whose pre / post are pure functions of the atom."""
+    memo = {} if memo is None else memo
 
     def poly(p):
         res = F.const(0)
@@ -119,7 +120,7 @@ def rewrite(r, pre=None, post=None):
         return out
 
     if isinstance(r, tuple):
-        return tuple(rewrite(x, pre, post) for x in r)
+        return tuple(rewrite(x, pre, post, memo) for x in r)
     if r is None or is_unknown(r):
         return r
     return poly(r.n) / poly(r.d)
@@ -191,7 +192,10 @@ def whole(r):
         if name == "floordiv" and len(args) == 2 and not isinstance(args[1], str) and not args[1].is_zero():
             return args[0] / args[1]
         return None
-    return rewrite(r, post=post)
+    return rewrite(r, post=post, memo=_MEMO_WHOLE)
+
+
+_MEMO_WHOLE, _MEMO_CT1, _MEMO_CT2, _MEMO_SETTLE = {}, {}, {}, {}
 
 
 def canon_tests(r):
@@ -227,8 +231,8 @@ def canon_tests(r):
         if name == "phi" and len(args) == 3 and not any(isinstance(a, str) for a in args):
             return _canon_phi(*args)
         return None
-    out = rewrite(r, post=post)
-    return rewrite(out, post=_canon_empty)
+    out = rewrite(r, post=post, memo=_MEMO_CT1)
+    return rewrite(out, post=_canon_empty, memo=_MEMO_CT2)
 
 
 def _canon_empty(name, args):
@@ -586,7 +590,7 @@ def settle(v):
         if name == "odd" and len(args) == 1 and not isinstance(args[0], str) and args[0].is_const() and args[0].const_value().denominator == 1:
             return F.const(int(args[0].const_value()) & 1)
         return None
-    return rewrite(v, post=post)
+    return rewrite(v, post=post, memo=_MEMO_SETTLE)
 
 
 def _canon_carried(lp):
@@ -696,8 +700,10 @@ def renamer(mapping):
                 return v
         return None
 
+    memo = {}
+
     def f(r):
-        return rewrite(r, pre=pre)
+        return rewrite(r, pre=pre, memo=memo)
     return f
 
 
